@@ -2,6 +2,8 @@
 Model of `src/protocol/resp.rs` (RESP encoder / decoder, inline commands) and of the decode
 loop of `src/protocol/server.rs::handle_connection`, for properties C20, C21, C22.
 Import-free (the driver links against it).  Bytes are `List UInt8`.
+The decoder dispatches on the type bytes `+ - : $ * _` only; every other first byte — including
+the RESP3 ones `# , ! = % ~ > ( |` — starts an inline command line, in the code and here.
 
 `decode`, `encode`, `feed` model the code as it stands after the `fix:` commits:
   * the decoder works on a cursor and the buffer is advanced only when a value (or a
@@ -637,5 +639,41 @@ def feedAllLegacy (chunks : List Bytes) : Conn := chunks.foldl feedLegacy {}
 
 /-- number of frames a client reading `reply` sees (pinned decoder, all-at-once) -/
 def countFrames (reply : Bytes) : Nat := (drainLegacy reply).1.length
+
+/-! ### the forwarding branch of `handle_connection` (`sharding::Proxy::forward`)
+
+When sharding is configured a `GRAPH.*` command for a remote tenant is re-encoded, sent to
+the owning node, and whatever `Proxy::forward` returns is written to the client verbatim —
+the only reply bytes that do not come out of `RespValue::encode` on this node.  `cs` are
+the reads from the remote node's socket. -/
+
+/-- `Proxy::forward` after the repair: keep reading until the bytes received start with one
+complete frame and relay exactly that frame; `none` = the remote closed the connection or
+sent a malformed reply first (the client then gets `-ERR routing failed: …`, an ordinary
+`RespValue::Error`). -/
+def relayFrom (buf : Bytes) : List Bytes → Option Bytes
+  | [] => none
+  | c :: cs =>
+    let s := decode (buf ++ c)
+    match s.out with
+    | .val _ => some ((buf ++ c).take ((buf ++ c).length - s.rest.length))
+    | .more => relayFrom (buf ++ c) cs
+    | .err => none
+    | .panic => none
+
+def relay (cs : List Bytes) : Option Bytes := relayFrom [] cs
+
+/-- what `handle_connection` writes to the client for a forwarded command: the relayed bytes,
+or `-ERR routing failed: …` (an ordinary `RespValue::Error`, text `errMsg`) -/
+def forwardReply (cs : List Bytes) (errMsg : Bytes) : Bytes :=
+  match relay cs with
+  | some b => b
+  | none => encode (.error errMsg)
+
+/-- `Proxy::forward` of the pinned tree: a single `read` into a 4096-byte buffer; whatever
+it returned (possibly nothing) is "the reply" -/
+def relayLegacy : List Bytes → Option Bytes
+  | [] => some []
+  | c :: _ => some (c.take 4096)
 
 end SgModel.Resp
